@@ -3,6 +3,7 @@ import numpy as np
 
 from ...refdom import RefQuad
 from ..element_line import ElementLinePp
+from ..discrete_field import DiscreteField
 
 
 logger = logging.getLogger(__name__)
@@ -33,6 +34,26 @@ class ElementQuadP(ElementLinePp):
         self.dPx, self.dPy = np.zeros((0, 0, 1)), np.zeros((0, 0, 1))
         self.p = p
         self._X = np.array([])
+
+    def gbasis(self, mapping, X, i, tind=None):
+        """Orient the odd edge modes from the lower to the higher vertex."""
+        field, = super(ElementQuadP, self).gbasis(mapping, X, i, tind)
+        if 4 <= i < 4 + 4 * self.facet_dofs:
+            ind = ((i - 4) % self.facet_dofs) + 2
+            if ind % 2 == 1:
+                # the mode changes sign with the direction in which the edge
+                # is traversed; local directions: 0->1, 1->2, 3->2, 0->3
+                a, b = [(0, 1), (1, 2), (3, 2), (0, 3)][
+                    (i - 4) // self.facet_dofs]
+                t = mapping.mesh.t
+                ori = 1 - 2 * (t[a] > t[b])
+                if tind is not None:
+                    ori = ori[tind]
+                return (DiscreteField(
+                    value=np.asarray(field) * ori[:, None],
+                    grad=field.grad * ori[None, :, None],
+                ),)
+        return (field,)
 
     def lbasis(self, X, i):
         x, y = X
